@@ -8,7 +8,13 @@ RULE = ('E1 product enumerator: for each of the 64 spec-table methods the '
         'full cartesian product of the per-argument alphabets (all 2^k bit '
         'combinations), channel cycled (quick) or all 7 channels (thorough), '
         'plus all <=1-deviation vectors on all channels and one seeded '
-        'interior vector per class. A case is (method, argument vector, '
+        'interior vector per class; plus dense sweeps of interior values: '
+        'every octet and short value, every channel 0..65535, every long / '
+        'longlong value below 70000 (thorough 300000) and within 20-40 of '
+        'each power of two, every short-string length 0..255 (ASCII, 2-, 3-, '
+        '4-byte characters), every long-string length 0..1100 and around '
+        'powers of two, every table / array entry count 0..400 (thorough '
+        '1200), every key length 0..128. A case is (method, argument vector, '
         'channel); distinct by hash of its canonical form; non-trivial = '
         'leaves the all-default vector or channel 0.')
 BOUNDS = {
@@ -24,7 +30,8 @@ ASSUMPTIONS = [
 
 
 def tasks(tier, seed):
-    return corpus.method_tasks(tier)
+    return corpus.method_tasks(tier) + \
+        [('dense',) + t for t in corpus.dense_tasks(tier)]
 
 
 def expected_arg(wire_type, value):
@@ -85,6 +92,14 @@ def check_one(ctx, m, vec, channel):
 
 
 def run(task, ctx):
+    if task[0] == 'dense':
+        for m, vec, channel in corpus.dense_cases(task[1:], ctx.tier):
+            ctx.case((m.name, canon(list(vec)), channel), True,
+                     sample=lambda: {'method': m.name,
+                                     'vec': short(list(vec), 120),
+                                     'channel': channel, 'dense': task[1]})
+            check_one(ctx, m, vec, channel)
+        return
     for m, vec, channel, _i in corpus.method_cases(task, ctx.tier, ctx.seed):
         key = (m.name, canon(list(vec)), channel)
         trivial = corpus.is_default(m, vec) and channel == 0
